@@ -195,7 +195,7 @@ func own(tags ...string) map[string]bool {
 	return m
 }
 
-var baseWeights = map[string]int{"publish": 40, "delete": 14, "reopen": 10, "gc": 3, "sync": 2, "trim": 6, "compact": 5, "migrate": 3, "pkg": 3, "backup": 3, "ro": 3}
+var baseWeights = map[string]int{"publish": 40, "delete": 14, "reopen": 10, "gc": 3, "sync": 2, "trim": 6, "compact": 5, "migrate": 3, "pkg": 3, "backup": 3, "ro": 3, "probe": 3}
 
 func weights(over map[string]int) map[string]int {
 	w := map[string]int{}
@@ -211,8 +211,8 @@ func weights(over map[string]int) map[string]int {
 var Profiles = map[string]*Profile{
 	"C01": {Name: "C01", Prop: "C01", Weights: weights(nil), Own: own("scan")},
 	"C02": {Name: "C02", Prop: "C02", Weights: weights(map[string]int{"delete": 22, "reopen": 16, "trim": 3, "compact": 2, "backup": 0, "ro": 1, "sync": 4}), Own: own("pub", "next")},
-	"C03": {Name: "C03", Prop: "C03", Weights: weights(map[string]int{"delete": 22, "backup": 0, "pkg": 1, "ro": 4}), Own: own("consume"), TinyRollBias: true},
-	"C04": {Name: "C04", Prop: "C04", Weights: weights(map[string]int{"delete": 22, "backup": 0, "pkg": 1, "ro": 4}), Own: own("get"), TinyRollBias: true},
+	"C03": {Name: "C03", Prop: "C03", Weights: weights(map[string]int{"probe": 14, "delete": 22, "backup": 0, "pkg": 1, "ro": 4}), Own: own("consume"), TinyRollBias: true},
+	"C04": {Name: "C04", Prop: "C04", Weights: weights(map[string]int{"probe": 14, "delete": 22, "backup": 0, "pkg": 1, "ro": 4}), Own: own("get"), TinyRollBias: true},
 	"C09": {Name: "C09", Prop: "C09", Weights: weights(map[string]int{"delete": 20, "backup": 0, "pkg": 1}), Own: own("key"), TinyRollBias: true},
 	"C10": {Name: "C10", Prop: "C10", Weights: weights(map[string]int{"delete": 20, "backup": 0, "pkg": 1, "compact": 2}), Own: own("time"), ForceMono: true, TinyRollBias: true},
 	"C11": {Name: "C11", Prop: "C11", Weights: weights(map[string]int{"reopen": 18, "migrate": 5, "backup": 0, "ro": 1}), Own: own("index", "rmidx", "layout")},
@@ -366,7 +366,7 @@ func (e *Env) Apply(op Op) {
 	e.Trace = append(e.Trace, op)
 	e.St.Inc("op." + op.Kind)
 	switch op.Kind {
-	case "publish", "backup", "reopen", "gc", "sync", "ro":
+	case "publish", "backup", "reopen", "gc", "sync", "ro", "probe":
 		// the source "has only been appended to": sessions, GC and Sync do not take anything away
 	default:
 		e.bkDir = "" // deletes, trims, compactions, migrations, repairs: the directory of the last backup is not reused
@@ -408,6 +408,8 @@ func (e *Env) Apply(op Op) {
 		e.applyBackup(op)
 	case "ro":
 		e.applyRO(op)
+	case "probe":
+		e.applyProbe(op)
 	default:
 		panic("unknown op " + op.Kind)
 	}
